@@ -163,7 +163,7 @@ func (rr *DefaultRelationsResolver) NewAutoMutation() (*Mutation, S) {
 	var toAdd S
 
 	// check all Auto states
-	for s := range m.schema {
+	for _, s := range m.stateNames {
 		if !m.schema[s].Auto {
 			continue
 		}
